@@ -11,209 +11,20 @@ NOTE = ("Trusted base: Coq 8.16.1 kernel/coqc, vm_compute (no native_compute); n
         "definitions (MPD tokenizer, filter grammar, session rules, names) written from memory; Rust std, bytes, nom, "
         "tokio, chrono modelled not verified.")
 
-LOOP_NOTE = "PARTIAL where the truth lives in the runtime: tokio's actual scheduling, select! randomness and timer granularity are modelled as adversarial labels (stronger than tokio's behaviour); partial progress of write_all and real sockets are not modelled; a receive completes with a whole response (segmentation is C02; cancellation-safety of receive is the parked builder state of mod.rs, modelled in the executable system and exercised by the replayer). " + NOTE
+def load_claims():
+    """One file per claimed property under tools/claims/ (kept apart so that branches adding properties merge cleanly)."""
+    out = {}
+    d = os.path.join(VERIF, "tools", "claims")
+    for f in sorted(os.listdir(d)):
+        if f.endswith(".json"):
+            c = json.load(open(os.path.join(d, f)))
+            if "note" in c:
+                c["note"] = (c["note"] + " " + NOTE) if c.pop("note_appends_trusted_base", True) else c["note"]
+            out[f[:-5]] = c
+    return out
 
-CLAIMED = {
-    "C20": dict(
-        text="Machine-checked Coq theorems (Props/C20.v) about a tag/subsystem model defined over name tables, charsets "
-             "and shape pins REGENERATED from /repo on every run: round trip and case-insensitivity for all strings, "
-             "rejection iff empty or a byte outside the field-name alphabet, Eq/Ord/Hash coherence (total order, "
-             "hash agrees with eq for any hasher), every subsystem name preserved; plus exhaustive correspondence "
-             "of the model with the real Tag/Subsystem (through a real idle reply) and a property oracle on the "
-             "implementation's own output. One recorded known finding (Other(name in other letter case)).",
-        design_ref="DESIGN.md 3.C20",
-        technique="Coq proof over tables regenerated by a translator (finite facts by vm_compute over the complete "
-                  "enumeration, lifted to all strings by lemmas) + exhaustive model/implementation correspondence",
-    ),
-    "C06": dict(
-        text="Coq theorem c06_tokenize_roundtrip: for EVERY accepted name and EVERY list of accepted string arguments outside "
-             "the explicit failing class K, a Coq port of MPD's request tokenizer splits the written line into exactly that name "
-             "and those arguments (induction over the argument bytes; escape followed by NextString is the identity on all bytes); "
-             "K is characterised exactly (non-empty, no byte <= 0x20, holds a quote or backslash) and witnessed (c06_refuted_K): "
-             "a recorded known finding pinned by the test suite. Charsets and quoting trigger come from the regenerated Tables.v. "
-             "Correspondence on written bytes and the tokenizer oracle run on the implementation's own bytes.",
-        design_ref="DESIGN.md 3.C06",
-        technique="Coq proof (round trip through a ported MPD tokenizer, induction on byte strings) + translator-regenerated "
-                  "charsets + model/implementation correspondence + tokenizer oracle on implementation output",
-    ),
-    "C07": dict(
-        text="Coq theorems: a name is accepted iff it starts with a letter, stays in the builder's alphabet (shown inside MPD's "
-             "word alphabet by complete sweep over the 256 bytes of the regenerated charset) and does not start with the "
-             "command-list prefix; add_argument on an ARBITRARY rendered byte string is rejected iff it holds LF/NUL and then "
-             "leaves the command unchanged; every reachable command is LF-free (induction over build/add_argument histories); "
-             "send writes exactly one line and a list of n<>1 commands exactly begin + n + end lines. Correspondence after every "
-             "call, framing oracle on the bytes the real Connection writes.",
-        design_ref="DESIGN.md 3.C07",
-        technique="Coq proof (invariant over operation histories, line-splitting lemmas) + translator-regenerated "
-                  "charsets/framing literals + model/implementation correspondence",
-    ),
-    "C02": dict(
-        text="Coq theorems over a parser model written with the same nom streaming combinators as parser.rs: every combinator "
-             "preserves prefix-stability (a verdict Ok/Error/Failure reached on a prefix is the verdict on every extension), hence "
-             "the whole grammar; the response builder is incremental; one receive under ANY chunking and either buffer policy "
-             "(blocking: capacity c>=1 with doubling, invariant valid<cap; async) returns the outcome of a segmentation-free "
-             "reference on the whole stream and leaves exactly the reference's rest; so runs depend only on the bytes, and blocking "
-             "= async (induction over the chunk list, no bound on sizes). Same for connect, keeping bytes after the greeting. "
-             "Correspondence: streams x segmentations x both flavours against the real connections, incl. >4 KiB and doublings.",
-        design_ref="DESIGN.md 3.C02",
-        technique="Coq proof (prefix-stability closed under parser combinators; simulation of the chunked receive loop by a "
-                  "whole-stream reference, induction over chunks) + model/implementation correspondence over segmentations",
-    ),
-    "C03": dict(
-        text="Proved in Coq for all inputs: a response completed on a prefix of the stream is unchanged by, and leaves unconsumed, "
-             "whatever follows (c03_rest_not_consumed); decoding is incremental; payloads are cut by length. The exact-decoding "
-             "statement for an abstract encoder (decode(encode r) = r for every well-formed r) is NOT yet proved in Coq: it is "
-             "decided on generated abstract responses (look-alike values, payloads with protocol lines, lists, ACKs, back-to-back "
-             "responses, trailing garbage) by comparing the real connections' output with the abstract response and with the model.",
-        design_ref="DESIGN.md 3.C03",
-        technique="Coq proof of the non-consumption/incrementality half + generated abstract responses decoded by the real "
-                  "connections and compared with the abstract value (oracle) and the Coq model (correspondence)",
-        note="PARTIAL: the round-trip theorem decode(enc r)=r over all well-formed abstract responses is stated in DESIGN.md but only "
-             "its non-consumption and incrementality parts are machine-checked so far; the rest rests on the sampled oracle run. " + NOTE,
-    ),
-    "C09": dict(
-        text="Coq theorems: in a model where every possible Rust panic site of the receive path (split_off/slicing past the valid "
-             "length) is an explicit Panic outcome and every loop runs on explicit fuel, no call of receive or connect - on arbitrary "
-             "chunks, any capacity >= 1, both policies, including calls made AFTER an error outcome - yields Panic or exhausts its "
-             "fuel (reads per call <= bytes left + 1); every parsed component consumes between 1 and all buffered bytes; an invalid "
-             "verdict is final. Named edge cases by computation. Correspondence under catch_unwind with a read counter.",
-        design_ref="DESIGN.md 3.C09",
-        technique="Coq proof (invariant valid<cap over the receive loop, fuel sufficiency, prefix stability) + random/corrupted "
-                  "streams against the real code under catch_unwind",
-    ),
-    "C10": dict(
-        text="Coq theorem for EVERY byte string: when the stream ends, the end is reported clean iff nothing at all remains after "
-             "the last complete response (c10_clean_iff_nothing_left), otherwise it is the unexpected-EOF error (or invalid data); "
-             "runs are [complete responses ++ one terminal outcome]; by C02 for both flavours and all segmentations; a cut inside a "
-             "possible greeting line is Incomplete hence unexpected EOF. Oracle: every cut position of generated streams.",
-        design_ref="DESIGN.md 3.C10",
-        technique="Coq proof (builder-state invariant: progress is never forgotten) + every-cut-position sweep against the real code",
-    ),
-    "C18": dict(
-        text="Coq theorems: total classification of the greeting by the byte string alone (valid line => version verbatim; empty or "
-             "non-UTF-8 version, or a byte differing from the prefix => invalid; proper prefix of a possible line => needs more bytes "
-             "=> unexpected EOF) and connect returns exactly that verdict under every segmentation and both buffer policies. "
-             "Password half (do_connect modelled as the sequential program it is): with a password the only thing written after the "
-             "greeting is the password command and the run loop - whose first act is to write idle - is not started; ANY error response "
-             "yields the incorrect-password error with the loop never started, a close/cut/garbage/I-O failure the protocol error, only "
-             "a success response starts the loop; without a password the first write is idle. Replayer: Client::connect / "
-             "connect_with_password / connect_with_password_opt against every server verdict with the greeting segmented.",
-        design_ref="DESIGN.md 3.C18",
-        technique="Coq proof (evaluation lemmas for the greeting parser + connect/reference simulation; case analysis of the handshake "
-                  "program) + greeting corpus against both connections + replayer traces of the password exchange",
-    ),
-    "C19": dict(
-        text="Coq refinement theorem: for every frame (a vector of Option slots, any holes) and EVERY sequence of "
-             "find/get/len/is_empty/has_binary/binary/take_binary/borrowed iteration (any interleaving of next and next_back)/owned "
-             "iteration, the outputs equal those of a plain ordered list of pairs (the multimap of the property): find = first match, "
-             "get removes exactly the first match, forward iteration = wire order, backward = reverse, fused, len agrees; responses: "
-             "frames then error from either end with exact size hints, for every interleaving. Correspondence on real frames obtained "
-             "through the real parser, plus an independent multimap oracle.",
-        design_ref="DESIGN.md 3.C19",
-        technique="Coq refinement proof (abstraction function + one commuting-square lemma per operation, induction over the operation "
-                  "sequence) + model/implementation correspondence on random and small-scope-exhaustive operation sequences",
-    ),
 
-    "C05": dict(
-        text="Coq theorems over an abstract system whose client is the modelled run loop (LoopModel.cstep) and whose environment is a "
-             "rule-abiding MPD server, two FIFO network queues and an adversarial scheduler (callers, server timing, notifications, "
-             "which select! branch wins, timer expiry): a ten-shape invariant is preserved by EVERY label (induction over schedules of any "
-             "length), hence the server never receives anything but noidle while it waits in idle (also in the race where it answers idle "
-             "as the client cancels it), at most one request is outstanding, requests are written only after the idle reply was consumed or "
-             "from the window; idle on entry, after every idle reply and at window expiry. The same cstep, extracted, predicts the real "
-             "client's trace on random schedules (replayer: scripted transport, paused tokio clock), and a server-side port of MPD's idle "
-             "rules judges the lines the real client wrote.",
-        design_ref="DESIGN.md 3.C05",
-        technique="Coq proof (inductive invariant of a labelled transition system over all schedules) + trace correspondence between the "
-                  "extracted loop model and the real Client under a replayer + session-rule oracle on the implementation's writes",
-        note=LOOP_NOTE,
-    ),
-    "C01": dict(
-        text="Coq theorems over the same abstract system, for EVERY schedule and EVERY server reply function: whatever a responder is handed "
-             "is the server's reply to the bytes of a request issued under that responder's id (never an idle/noidle reply or another "
-             "request's); written ++ held ++ queued = issued (issue order on the wire); a failing list yields the error with exactly the "
-             "completed frames, a single command none. Replayer correspondence on random multi-caller schedules with cancellations; echo-"
-             "server oracle recomputing each caller's expected result from its request alone.",
-        design_ref="DESIGN.md 3.C01",
-        technique="Coq proof (invariant with ghost history over all schedules) + replayer trace correspondence + echo-transcript oracle",
-        note=LOOP_NOTE,
-    ),
-    "C04": dict(
-        text="Coq theorems for EVERY schedule: events delivered ++ names in replies still in flight = names the server wrote in changed: "
-             "lines (so at quiescence delivered = reported: exactly once, in order); one event per changed field verbatim; no event that is "
-             "not a changed field of the reply being handled. Replayer correspondence with requests issued at every stage of a reply's "
-             "delivery (including the fixed D8/D9 regressions kept as corpus); oracle: delivered names = reported names.",
-        design_ref="DESIGN.md 3.C04",
-        technique="Coq proof (ghost-list invariant over all schedules) + replayer trace correspondence + reported-vs-delivered oracle",
-        note=LOOP_NOTE,
-    ),
-    "C08": dict(
-        text="Coq theorems about every resumption of the loop: each responder held or just taken is answered, dropped (caller sees "
-             "ConnectionClosed) or still held; a closing event is emitted at most once, only while leaving, after all other events; the "
-             "exited loop is silent; with a dead transport (every receive ends at once with EOF/error) the loop leaves after at most "
-             "3*|queue|+3 resumptions whichever enabled event is chosen (termination measure), and a step is always possible until then; "
-             "errors go to the in-flight responder or, when idling, to the closing event; clean close and last-handle drop are silent. "
-             "Replayer: faults injected at random points (clean close, cut, failing reads/writes, handle drop, garbage) with oracle on "
-             "resolution, closing events, is_connection_closed and transport release.",
-        design_ref="DESIGN.md 3.C08",
-        technique="Coq proof (per-step accounting lemmas + well-founded measure for the dead-transport drain) + fault-injection replayer "
-                  "correspondence + resolution oracle",
-        note=LOOP_NOTE + " A silent peer (neither data nor failure) legitimately blocks forever and is outside the statement. Observed, not claimed as a violation: a failure whose in-flight caller was cancelled is reported to nobody.",
-    ),
-    "C14": dict(
-        text="Coq theorems (Props/C14.v) about an executable model of SongBuilder / from_frame_multi / from_frame_single as the code is now "
-             "(key sets of is_start_field / handle_start_field / handle_song_field regenerated from song.rs; the try_from unwrap and the "
-             "into_song assert are explicit Panic outcomes): for EVERY well-formed abstract listing - any number of entries, songs with any "
-             "subset, order and repetition of duration, Time, Range, Format, Last-Modified, Prio, Pos, Id and tag lines, directory and playlist "
-             "entries with or without their own Last-Modified interleaved anywhere - decoding the encoded listing yields exactly one song per "
-             "file entry, in server order, each equal to a short reference computed from that entry alone (c14_multi for SongInQueue, "
-             "c14_multi_song for Song, c14_single for currentsong); tags keyed by canonical tag with values in line order "
-             "(c14_tag_values_in_order); for ALL inputs a directory/playlist line completes the song as it was BEFORE that line and its "
-             "Last-Modified is attributed to no song (c14_dir_lm_not_attributed, c14_idle_dir_lm_skipped, c14_dir_lm_irrelevant); no field "
-             "list with parser-producible keys makes any of the three decoders panic (c14_no_panic: C12's song part). Numeric exactness of "
-             "std (f64 parsing, Duration::try_from_secs_f64) and chrono are modelled, not proved: the theorems say each decoded value is "
-             "std's reading of exactly the text of that song's own line. Tie: generated listings -> wire -> REAL parser -> real "
-             "Command::response of Queue/QueueRange/CurrentSong/Find/GetPlaylist/ListAllIn, every public field and accessor printed; "
-             "correspondence with the model on every case and an oracle computed in Python from the abstract listing independently of the "
-             "Coq code model; malformed stream for Err / no-panic agreement; thorough tier also with feature chrono off.",
-        design_ref="DESIGN.md 3.C14",
-        technique="Coq proof (induction over entries with the builder invariant 'url empty iff no song in progress'; snoc-induction over "
-                  "attribute lines against a declarative reference; grouping lemma for the tag map) over key tables regenerated by the "
-                  "translator + model/implementation correspondence through the real parser and Command::response + independent "
-                  "reference oracle on the implementation's output",
-        note="Domain: durations are exact integer nanoseconds only for plain decimals with <= 9 fraction digits and integer part < 2^22 "
-             "(std is exact there; checked differentially); other float texts and non-canonical RFC 3339 timestamps are 'opaque' (std / chrono "
-             "decides; the comparer treats them as wildcards). usize is taken as 64 bits. The reference follows the code for repeated `Time` "
-             "lines without `duration` (first wins; never sent by MPD; excluded from the oracle, kept in the correspondence). "
-             "from_frame_single returns the LAST song of a multi-entry frame (irrelevant for real currentsong replies). " + NOTE,
-    ),
-
-    "C13": dict(
-        text="Coq theorems: for every list of LF-free commands the rendered bytes are one command_list_ok_begin..command_list_end block "
-             "holding the N lines in order (N <> 1) or the bare line (N = 1); the empty typed list starts no request and yields []; for "
-             "Vec lists of ANY length the i-th typed value is decoded by the i-th command from the i-th frame (a length mismatch is a typed "
-             "error); the index lists of every impl_command_list_tuple! invocation, regenerated from the source on every run, are 0..n-1 in "
-             "order (finite fact by vm_compute), hence tuples of every arity 1..8 decode positionally like the vector. Replayer: "
-             "Client::command_list on Vec lists of every length 0..20 and tuples of every arity against a server whose reply to each command "
-             "carries that command's own number.",
-        design_ref="DESIGN.md 3.C13",
-        technique="Coq proof (line-splitting lemmas; induction over the command list; translator-regenerated macro index lists) + replayer "
-                  "trace correspondence + positional oracle",
-    ),
-    "C17": dict(
-        text="Coq theorem c17_exact: Client::album_art modelled as a state machine over the results of its requests; for EVERY picture, EVERY "
-             "sequence of positive chunk limits (one per request) and from EVERY proper prefix already received, the offset loop returns "
-             "exactly the picture (and the MIME type of the embedded source) after at most (bytes left) requests at strictly increasing "
-             "offsets inside the picture (well-founded induction on the bytes left); decision table for the first two requests: fallback to "
-             "the cover-file command exactly on an empty reply or ACK with the code read from the source (5), other errors propagate "
-             "unchanged, absence when neither source has data. Replayer: the real Client::album_art against a picture-holding simulated "
-             "server (sizes 0..70000, limits 1..8192, look-alike payloads, both sources, MIME, every error path) with other callers, "
-             "notifications and the re-idle timer interleaved.",
-        design_ref="DESIGN.md 3.C17",
-        technique="Coq proof (loop invariant 'received = prefix of the picture', well-founded induction on remaining bytes) + replayer "
-                  "trace correspondence + picture oracle from the server configuration",
-    ),
-}
+CLAIMED = load_claims()
 
 ALL = [f"C{n:02d}" for n in range(1, 21)]
 
